@@ -124,11 +124,13 @@ def allStrings : Nat → List Str
   | n + 1 => (allStrings n).flatMap (fun s => alphabet.map (fun c => c :: s))
 
 def tokens : List Str :=
-  ["..", ".", "/", "a", " ", "\t", "../", " ..", ".. ", "a..", "...", "//", "./", "a/", "/..", " ../", "\n", "a.a", ".a"].map
+  ["..", ".", "/", "a", " ", "\t", "../", " ..", ".. ", "a..", "...", "//", "./", "a/", "/..", " ../", "\n", "a.a", ".a",
+   "\\", "\\\\", "..\\", "\\..", "a\\..\\..\\a", "x\\..\\..\\..\\a", "\\../", "/..\\"].map
     String.toList
 
 def compTokens : List Str :=
-  ["a", "a", "a", "a", "..", ".", "", " ..", ".. ", " a", "a ", "a..", "...", "\t..", "a.arrai", "a.a", " "].map String.toList
+  ["a", "a", "a", "a", "..", ".", "", " ..", ".. ", " a", "a ", "a..", "...", "\t..", "a.arrai", "a.a", " ",
+   "x\\..\\..\\a", "x\\..\\..\\..\\a", "a\\\\..\\\\..\\\\a", "x\\..", "..\\a", "a\\a", "x\\..\\..\\a.arrai"].map String.toList
 
 /-- half of the time a token soup, otherwise a '/'-separated list of component-like tokens (mostly the
 name of the marker script, so that many imports find a file) with optional outer whitespace -/
